@@ -30,6 +30,9 @@ func main() {
 		usage()
 	}
 	debug.SetGCPercent(400)
+	if f := os.Getenv("VERIF_SMTLOG"); f != "" {
+		smtLog, _ = os.Create(f)
+	}
 	if pf := os.Getenv("VERIF_PROF"); pf != "" {
 		f, _ := os.Create(pf)
 		pprof.StartCPUProfile(f)
